@@ -121,6 +121,13 @@ func (c *conn) open(buf []byte) error {
 		return unix.Send(c.fd, buf, 0)
 	}
 
+	if !c.outboundBuffer.IsEmpty() {
+		// Data written inside OnOpen is still pending, the reply
+		// must go behind it to keep the order of the stream.
+		_, _ = c.outboundBuffer.Write(buf)
+		return nil
+	}
+
 	for {
 		n, err := unix.Write(c.fd, buf)
 		if err != nil {
